@@ -168,6 +168,7 @@ type vbackend struct {
 	onNewSession  func(c *Conn)
 	helloSeen     []string
 	tlsSeen       []bool
+	lastSession   *vsession
 }
 
 func (b *vbackend) NewSession(c *Conn) (Session, error) {
@@ -183,6 +184,7 @@ func (b *vbackend) NewSession(c *Conn) (Session, error) {
 	}
 	b.sessions++
 	s := &vsession{b: b, id: b.sessions}
+	b.lastSession = s
 	b.trace = append(b.trace, vevent{kind: "NewSession", sess: s.id})
 	switch {
 	case b.authSession && b.lmtpSession:
